@@ -1,6 +1,38 @@
+import Proofs.C08.Num
+import Generated.Script
 /-!
-# C08 — property theorems only (see DESIGN.md §3 C08).
+# C08 — the script engine gives Bitcoin Core's verdict
+
+Property theorems only.  `Btc.Script.Core.*` is the transcription of Bitcoin Core's interpreter (the
+specification); `Btc.Script.*` are the hand models of btclib's code (tied by correspondence);
+`Gen.Script.*` is regenerated from btclib's source on every run.
 -/
 namespace Props.C08
+open Btc Btc.Script
+
+/-! ## T1 — script numbers and booleans -/
+
+/-- `_to_bool` is Core's `CastToBool` on every byte string (negative zero of any length included). -/
+theorem to_bool_is_CastToBool (b : Bytes) : toBool b = Core.castToBool b :=
+  toBool_eq_castToBool b
+
+/-- `decode_num` is `CScriptNum::set_vch` on every byte string. -/
+theorem decode_num_is_set_vch (b : Bytes) : decodeNum b = Core.setVch b :=
+  decodeNum_eq_setVch b
+
+/-- `decode_num (encode_num i) = i` on the whole int64 range (and `encode_num` answers there). -/
+theorem decode_encode_num (i : Int) (h : MIN_SCRIPT_NUM ≤ i ∧ i ≤ MAX_SCRIPT_NUM) :
+    ∃ b, encodeNum i = .ok b ∧ decodeNum b = i := by
+  refine ⟨encodeNumRaw i, ?_, decodeNum_encodeNumRaw i⟩
+  simp [encodeNum, h]
+
+/-- outside the int64 range `encode_num` refuses with the library's ValueError. -/
+theorem encode_num_range (i : Int) (h : ¬ (MIN_SCRIPT_NUM ≤ i ∧ i ≤ MAX_SCRIPT_NUM)) :
+    encodeNum i = .error .value := by
+  simp [encodeNum, h]
+
+example : encodeNum (-255) = .ok [0xff, 0x80] := by decide
+example : decodeNum [0xff, 0x80] = -255 := by decide
+example : toBool [0, 0, 0x80] = false ∧ toBool [0x80, 0] = true := by decide
 
 end Props.C08
